@@ -248,7 +248,7 @@ def check_obligations(pid, tier):
 	}
 	if tier == 'thorough':
 		t0 = time.time()
-		mods = ['StockpylModel.Props.' + pid] + (['StockpylModel.Props.Net', 'StockpylModel.Props.NetBO', 'StockpylModel.Props.NetFlow', 'StockpylModel.Props.NetArrive', 'StockpylModel.Props.NetPolicy'] if pid in ('C01', 'C02', 'C03', 'C04') else [])
+		mods = ['StockpylModel.Props.' + pid] + (['StockpylModel.Props.Net', 'StockpylModel.Props.NetBO', 'StockpylModel.Props.NetFlow', 'StockpylModel.Props.NetArrive', 'StockpylModel.Props.NetPolicy', 'StockpylModel.Props.NetExt'] if pid in ('C01', 'C02', 'C03', 'C04') else [])
 		rc, out2 = run(['lake', 'env', 'leanchecker'] + mods, cwd=LEAN_DIR, timeout=3600)
 		info['leanchecker'] = {'rc': rc, 'wall_s': round(time.time() - t0, 1), 'tail': out2[-300:]}
 		if rc != 0:
